@@ -307,7 +307,7 @@ type Query struct {
 	Sels  []Sel `json:"sels"`
 	Range int   `json:"range"`
 	Ivl   int   `json:"ivl"`
-	Cond  bool  `json:"cond"` // where host='a'
+	Cond  string `json:"cond"` // "" | a | b: where host='<cond>'
 	GB    bool  `json:"gb"`   // group by host
 }
 
@@ -350,8 +350,8 @@ func (q Query) sql(metric string) string {
 		s += it.String()
 	}
 	s += " from " + metric
-	if q.Cond {
-		s += " where host='a'"
+	if q.Cond != "" {
+		s += " where host='" + q.Cond + "'"
 	}
 	var gb []string
 	if q.GB {
@@ -373,8 +373,8 @@ func (q Query) sql(metric string) string {
 
 func (q Query) class() string {
 	c, g := "all", "nogroup"
-	if q.Cond {
-		c = "cond"
+	if q.Cond != "" {
+		c = "cond-" + q.Cond
 	}
 	if q.GB {
 		g = "groupby"
@@ -416,7 +416,7 @@ func (m *model) eval(q Query) map[string]*expPoint {
 			if k.t < start || k.t > end {
 				continue
 			}
-			if q.Cond && k.series != "a" {
+			if q.Cond != "" && k.series != q.Cond {
 				continue
 			}
 			group := ""
